@@ -5,6 +5,7 @@ from vmon.checks.common import wrapper_agrees, obs, fail, both_views, random_pre
 
 EXTREMES = "seq"   # worker re-labels every sixth case to the ends of the legal ranges (gen.extremify)
 RESTATE = "seq"    # worker adds a signature restating the one in force to every fifth case (gen.restate_signatures)
+SCALE = True   # worker: every fortieth case is blown up by scale_case below
 PROP = "C05"
 MONITORS = ["quantise"]
 INSITU = {"k": "quantise or composition or tokenisation or scale or example"}
@@ -20,6 +21,14 @@ FLOORS = {"quick": {"quantise.survival.armed": 300, "quantise.pairing.armed": 20
 STEPS = [[24], [12], [6, 8], [3, 4], [12, 8], [24, 12, 6, 16, 8, 4], None, [4], [6, 4], [48, 32], [5, 7],
          [16, 16, 24], [12, 12, 8], [6, 6], [8, 12, 8, 24], [24, 16, 16], [7, 7, 3], [1], [2, 3], [96]]      # "any list": repeated entries are legal
 
+
+def scale_case(case, i):
+    sp = case["seq"]
+    sp["notes"] = gen.big_notes(i, chans=(0, 1, 2), pitches=(60, 61, 62, 63, 64), lmin=1, lmax=30, gap=(0, 30))
+    sp.pop("pad", None)
+    case["prefix"] = []
+    if (i // 41) % 2 == 0:
+        case["steps"] = [24, 16, 12, 8, 6, 4, 3, 2, 48, 32, 96, 36, 18, 9, 20, 10, 5, 28, 14, 7]
 
 def make_case(rng, i, tier):
     multi = rng.random() < 0.4
